@@ -26,6 +26,11 @@ def registry():
     reg["C08"] = lambda: infohash.make("C08")
     from mc.checks import readonly
     reg["C18"] = lambda: readonly.make("C18")
+    from mc.checks import rebuild
+    for pid in ("C13", "C14", "C19"):
+        reg[pid] = (lambda p=pid: rebuild.make(p))
+    from mc.checks import history
+    reg["C09"] = lambda: history.make("C09")
     return reg
 
 
